@@ -951,3 +951,244 @@ def rule_every_round_passes(ctx, qname, loop_role, must_role, label, why):
     ctx.require(st.succ, rule, qname, f"{label}: loop body edge not found")
     bad = cfg.paths_avoiding(st, {mnode}, {head})
     ctx.check(not bad, rule, label, func=f, node=loop, construct=f"round-skips:{label}", msg=why)
+
+
+# =====================================================================================
+# rules added after round 3 of the seeded changes
+# =====================================================================================
+
+def rule_validators_accept_valid(ctx):
+    rule = "VALID-dom"
+    ctx.rule(rule, "PerformedNote validators never reject a valid value: on every order type of (0, value, the stored counterpart) with "
+                   "0 <= value and counterpart <= value the raising test is false (comparison-only predicates, finite check)")
+    ci = ctx.prog.cls("partitura.performance:PerformedNote", rule)
+    n = 0
+    for name, ms in sorted(ci.all_methods.items()):
+        if not name.startswith("_validate_"):
+            continue
+        f = ms[-1]
+        ctx.touch(f)
+        if len(f.params) < 2:
+            continue
+        val = f.params[1]
+        for t in own_nodes(f.node):
+            if not (isinstance(t, ast.If) and any(isinstance(x, ast.Raise) for x in t.body)):
+                continue
+            atoms = set()
+            for c in ast.walk(t.test):
+                if isinstance(c, ast.Compare):
+                    for it in [c.left] + list(c.comparators):
+                        atoms.add(norm(it))
+            if val not in atoms or not all(isinstance(c, (ast.Compare, ast.BoolOp, ast.UnaryOp, ast.boolop, ast.unaryop, ast.cmpop, ast.expr_context, ast.Name, ast.Constant,
+                                                           ast.Subscript, ast.Attribute, ast.Call)) for c in ast.walk(t.test)):
+                continue
+            if any(isinstance(c, ast.Constant) and isinstance(c.value, (int, float)) and c.value != 0 for c in ast.walk(t.test)):
+                continue  # upper bounds (velocity, pitch): another specification
+            others = sorted(a for a in atoms if a not in (val, "0"))
+            names = ["0", val] + others
+            n += 1
+            bad = None
+            for env in weak_orderings(names):
+                if not (env["0"] <= env[val] and all(env["0"] <= env[o] <= env[val] for o in others)):
+                    continue
+                r = eval_cmp(t.test, env)
+                if r:
+                    bad = env
+                    break
+            ctx.check(bad is None, rule, f"{f.qname}: `{norm(t.test)[:50]}`", func=f, node=t, construct=f"rejects-valid:{name}",
+                      msg=f"`{norm(t.test)}` raises for the valid case {bad}: (ranks; equal rank = equal value) — e.g. a zero-length note at time 0 has "
+                          f"note_on == note_off == 0, which the property requires to be accepted")
+    ctx.floor(rule, "raising tests of PerformedNote validators", n, 6)
+
+
+def rule_jump_recorded_after_reset(ctx):
+    rule = "RESET-rec"
+    ctx.rule(rule, "Path.make_copy_with_jump_to: whenever the used-jump lists are reset (first leap), the jump just taken is recorded "
+                   "again afterwards on every path to the return (must-follow on the CFG) — otherwise the same da capo / dal segno is "
+                   "taken a second time")
+    f = ctx.prog.func("partitura.score:Path.make_copy_with_jump_to", rule)
+    cfg = world(ctx).inf.cfg(f)
+    resets, records = [], []
+    for s in own_statements(f.node.body):
+        if isinstance(s, ast.Assign) and isinstance(s.targets[0], ast.Subscript) and norm(s.targets[0].value).endswith(".used_segment_jumps") \
+                and ((isinstance(s.value, ast.Call) and norm(s.value.func) == "list" and not s.value.args) or (isinstance(s.value, ast.List) and not s.value.elts)):
+            resets.append(s)
+        if isinstance(s, ast.Expr) and isinstance(s.value, ast.Call) and isinstance(s.value.func, ast.Attribute) and s.value.func.attr == "append" \
+                and isinstance(s.value.func.value, ast.Subscript) and norm(s.value.func.value.value).endswith(".used_segment_jumps") \
+                and s.value.args and isinstance(s.value.args[0], ast.Name) and s.value.args[0].id in f.params:
+            records.append(s)
+    ctx.require(resets and records, rule, f.qname, f"reset ({len(resets)}) / record ({len(records)}) statements not found")
+    rec_nodes = {cfg.node_of(r) for r in records}
+    for r in resets:
+        bad = cfg.paths_avoiding(cfg.node_of(r), rec_nodes, {cfg.exit})
+        ctx.check(not bad, rule, f"`{norm(r)[:50]}` is followed by the record", func=f, node=r, construct="reset-without-record",
+                  msg=f"after `{norm(r)[:60]}` some path returns without `used_segment_jumps[..].append({records[0].value.args[0].id})`: the leap that triggered the reset "
+                      f"is forgotten and is taken again when the playback reaches the mark the second time")
+
+
+def rule_total_processing_order(ctx):
+    rule = "TOTAL-ord"
+    ctx.rule(rule, "ps13s1 processes the notes in a total order that does not depend on the input row order: the permutation is built from "
+                   "the pitch column *and* the onset column, the onset sort being stable")
+    f = ctx.prog.func("partitura.musicanalysis.pitch_spelling:ps13s1", rule)
+    defs = local_defs(f)
+    # by role: the permutation whose argsort is used to restore the input order
+    inv = [v for vs in defs.values() for v in vs if isinstance(v, ast.Call) and isinstance(v.func, ast.Attribute) and v.func.attr == "argsort"
+           and isinstance(v.func.value, ast.Name) and not v.args]
+    perm = None
+    for v in inv:
+        nm = v.func.value.id
+        if any(isinstance(s, ast.Subscript) and isinstance(s.slice, ast.Name) and s.slice.id == nm for s in ast.walk(f.node)):
+            perm = nm
+    ctx.require(perm is not None, rule, f.qname, "processing permutation not found")
+    todo, seen, consts, names, stable, argsorts = [ast.Name(id=perm, ctx=ast.Load())], set(), set(), set(), False, 0
+    while todo:
+        e = todo.pop()
+        for x in ast.walk(e):
+            if isinstance(x, ast.Name) and x.id not in seen:
+                seen.add(x.id)
+                names.add(x.id)
+                todo.extend(defs.get(x.id, []))
+            if isinstance(x, ast.Constant) and isinstance(x.value, str):
+                consts.add(x.value)
+            if isinstance(x, ast.Call) and norm(x.func).endswith("argsort"):
+                argsorts += 1
+                if any(k.arg == "kind" and isinstance(k.value, ast.Constant) and k.value.value in ("mergesort", "stable") for k in x.keywords):
+                    stable = True
+            if isinstance(x, ast.Call) and norm(x.func).endswith("lexsort"):
+                argsorts += 2
+                stable = True
+                consts.add("pitch") if "pitch" in norm(x) else None
+    unit = next((n for n in names if any(isinstance(t, ast.Tuple) and any(isinstance(el, ast.Name) and el.id == n for el in t.elts)
+                                         for a in ast.walk(f.node) if isinstance(a, ast.Assign) for t in a.targets)), None)
+    ok = "pitch" in consts and unit is not None and stable and argsorts >= 2
+    ctx.check(ok, rule, f"order of `{perm}`", func=f, construct="row-order-dependent",
+              msg=f"the processing order `{perm}` is built from columns {sorted(consts)} with {argsorts} sort(s), stable={stable}: without the pitch key "
+                  f"notes with equal onset keep their *input* order, so the spelling of a chord depends on the order of the rows")
+
+
+def rule_shared_divisions_lcm(ctx):
+    rule = "DIVS-lcm"
+    ctx.rule(rule, "load_kern: when a spine joins an existing part, the part's divisions become a common multiple of the spine's and "
+                   "the part's current divisions (np.lcm), so that every duration of both stays an integer")
+    f = ctx.prog.func("partitura.io.importkern:load_kern", rule)
+    calls = [c for c in own_nodes(f.node) if isinstance(c, ast.Call) and isinstance(c.func, ast.Attribute) and c.func.attr == "set_quarter_duration" and len(c.args) == 2]
+    ctx.require(len(calls) >= 1, rule, f.qname, "set_quarter_duration call not found")
+    for c in calls:
+        x = c.args[1]
+        stmt = c
+        while not isinstance(stmt, ast.stmt):
+            stmt = stmt._parent
+        d = None
+        if isinstance(x, ast.Name):
+            cur = stmt
+            while d is None and cur is not None and cur is not f.node:
+                par = getattr(cur, "_parent", None)
+                for fld in ("body", "orelse"):
+                    b = getattr(par, fld, None)
+                    if isinstance(b, list) and any(cur is s for s in b):
+                        for s in b[:next(i for i, y in enumerate(b) if y is cur)]:
+                            if isinstance(s, ast.Assign) and any(norm(t) == x.id for t in s.targets):
+                                d = s.value
+                cur = par
+        else:
+            d = x
+        if d is None:
+            raise AnalysisError(rule, f.qname, f"definition of `{norm(x)}` before `{norm(c)[:40]}` not found in its block")
+        fn = norm(d.func) if isinstance(d, ast.Call) else ""
+        recv = norm(c.func.value)
+        if fn in ("np.lcm.reduce", "np.lcm", "numpy.lcm", "math.lcm", "lcm"):
+            ok = any(isinstance(n, ast.Attribute) and "quarter_duration" in n.attr for n in ast.walk(d))
+            why = "the lcm does not combine the part's current divisions with the spine's"
+        elif fn in ("max", "min", "np.max", "np.maximum"):
+            ok, why = False, f"`{fn}` of the two divisions is not a common multiple (triplets against sixteenths: 12 and 4 fit, 3 and 4 do not)"
+        else:
+            raise AnalysisError(rule, f.qname, f"`{norm(d)[:60]}` not understood as a combination of divisions")
+        ctx.check(ok, rule, f"`{norm(c)[:40]}` gets a common multiple", func=f, node=c, construct="shared-divisions-not-lcm",
+                  msg=f"`{norm(x)} = {norm(d)[:70]}`: {why}; durations that do not fit are silently rounded by the element parser")
+
+
+def rule_single_rounding_offset(ctx):
+    rule = "F10-pre"
+    ctx.rule(rule, "score MIDI export rounds once: every quantity subtracted from / added to the quarter position inside "
+                   "int(round(ppq * (...))) is itself free of truncation (no //, int(), floor, round in its definitions)")
+    f = ctx.prog.func("partitura.io.exportmidi:save_score_midi", rule)
+    conv = [n for n in ast.walk(f.node) if isinstance(n, ast.FunctionDef) and n is not f.node and
+            any(isinstance(c, ast.Call) and norm(c.func) in ("np.round", "round") for c in ast.walk(n))]
+    ctx.require(len(conv) >= 1, rule, f.qname, "nested tick conversion not found")
+    defs = local_defs(f)
+    n = 0
+    for cv in conv:
+        params = {a.arg for a in cv.args.args}
+        free = {x.id for x in ast.walk(cv) if isinstance(x, ast.Name) and isinstance(x.ctx, ast.Load) and x.id not in params and x.id in defs}
+        for name in sorted(free):
+            todo, seen = list(defs[name]), {name}
+            while todo:
+                d = todo.pop()
+                n += 1
+                bad = [x for x in ast.walk(d) if (isinstance(x, ast.BinOp) and isinstance(x.op, ast.FloorDiv)) or
+                       (isinstance(x, ast.Call) and norm(x.func) in ("int", "round", "np.round", "np.floor", "np.ceil", "math.floor", "math.ceil", "np.rint"))]
+                ctx.check(not bad, rule, f"`{name}` <- `{norm(d)[:40]}`", func=f, node=d, construct=f"pre-truncated:{name}",
+                          msg=f"`{norm(d)[:70]}` (flows into `{name}`, used inside the tick conversion `{cv.name}`) truncates before the final rounding: "
+                              f"a bar of 3/8 is 1.5 quarters, `//` makes it 1 and every tick is half a quarter early")
+                for x in ast.walk(d):
+                    if isinstance(x, ast.Name) and x.id in defs and x.id not in seen and len(defs[x.id]) <= 3:
+                        seen.add(x.id)
+                        todo.extend(v for v in defs[x.id] if not isinstance(v, ast.Call) or norm(v.func) not in ("qm",))
+    ctx.floor(rule, "definitions flowing into the tick conversion", n, 2)
+
+
+def rule_beat_type_source(ctx, scope, label):
+    rule = "BEAT-TYPE"
+    ctx.rule(rule, "quarters per beat is 4 / <beat type>: the operand of every `4 / x` or `x / 4` conversion derives from a denominator "
+                   "source (`beat_type`, 'ts_beat_type'), never only from a numerator source (`beats`, 'ts_beats')")
+    NUM = {"ts_beats", "beats", "musical_beats", "ts_mus_beats"}
+    DEN = {"ts_beat_type", "beat_type"}
+    n = 0
+    fs = []
+    for x in scope:
+        fs.extend(ctx.prog.functions_in(x) if isinstance(x, str) else [x])
+    for f in fs:
+        defs = local_defs(f)
+        for c in own_nodes(f.node):
+            if not (isinstance(c, ast.BinOp) and isinstance(c.op, ast.Div)):
+                continue
+            four = lambda e: isinstance(e, ast.Constant) and e.value in (4, 4.0)
+            other = c.right if four(c.left) else (c.left if four(c.right) else None)
+            if other is None:
+                continue
+            src, todo, seen = set(), [other], set()
+
+            def visit(e):
+                # the *selected* column / attribute is the source; the table or object it is selected from is not
+                if isinstance(e, ast.Attribute):
+                    src.add(e.attr)
+                    return
+                if isinstance(e, ast.Subscript) and isinstance(e.slice, ast.Constant) and isinstance(e.slice.value, str):
+                    src.add(e.slice.value)
+                    return
+                if isinstance(e, ast.Name):
+                    if e.id not in seen:
+                        seen.add(e.id)
+                        if e.id in f.all_params:
+                            src.add(e.id)
+                        todo.extend(defs.get(e.id, []))
+                    return
+                if isinstance(e, ast.Call):
+                    for a in list(e.args) + [k.value for k in e.keywords]:
+                        visit(a)
+                    if isinstance(e.func, ast.Attribute):
+                        visit(e.func.value)
+                    return
+                for ch in ast.iter_child_nodes(e):
+                    visit(ch)
+            while todo:
+                visit(todo.pop())
+            if not (src & (NUM | DEN)):
+                continue
+            n += 1
+            ctx.check(bool(src & DEN) or not (src & NUM), rule, f"{f.qname}: `{norm(c)[:40]}`", func=f, node=c, construct=f"numerator-as-beat-type:{f.name}",
+                      msg=f"`{norm(c)[:60]}` converts with `{norm(other)[:30]}`, which derives from {sorted(src & NUM)} only: the number of beats per bar is not the beat "
+                          f"unit (3/4 would be treated like 3/3)")
+    ctx.ok(rule, f"{label}: {n} conversion(s) with a recognised time-signature source")
+    return n
